@@ -835,3 +835,103 @@ benign("manual_compaction_truncate_len_in_local", ["C09", "C01"], "src/versionin
     old="""                    compaction_input_files.truncate(file_index + 1);""",
     new="""                    let keep = file_index + 1;
                     compaction_input_files.truncate(keep);""")
+
+# ---- TS-2 writer fragment typing / GRD-12 cursor
+mut("writer_swaps_first_and_last_types", ["C12"], "TS-2", file="src/logs.rs",
+    old="""            } else if is_first_data_chunk {
+                BlockType::First
+            } else if is_last_data_chunk {
+                BlockType::Last""",
+    new="""            } else if is_last_data_chunk {
+                BlockType::First
+            } else if is_first_data_chunk {
+                BlockType::Last""")
+mut("writer_clears_first_flag_only_at_the_end", ["C12"], "TS-2", file="src/logs.rs",
+    old="""            is_first_data_chunk = false;
+
+            if data_to_write.is_empty() {""",
+    new="""            if data_to_write.is_empty() {
+                is_first_data_chunk = false;""")
+mut("writer_last_flag_compares_with_room", ["C12"], "TS-2", file="src/logs.rs",
+    old="""            let is_last_data_chunk = data_to_write.len() == block_data_chunk_length;""",
+    new="""            let is_last_data_chunk = data_to_write.len() == space_available_for_data;""")
+mut("writer_chunk_is_max_of_remaining_and_room", ["C12"], "TS-2", file="src/logs.rs",
+    old="""            let block_data_chunk_length = if data_to_write.len() < space_available_for_data {""",
+    new="""            let block_data_chunk_length = if data_to_write.len() > space_available_for_data {""")
+mut("reader_cursor_counts_partial_reads", ["C16", "C02"], "GRD-12", patch="reader_cursor_counts_partial_reads.diff",
+    note="a torn tail is counted as consumed, so is_fully_consumed() lets the torn log be re-opened for appending")
+benign("writer_reordered_equivalent_type_chain", ["C12"], "src/logs.rs",
+    old="""            } else if is_first_data_chunk {
+                BlockType::First
+            } else if is_last_data_chunk {
+                BlockType::Last""",
+    new="""            } else if is_last_data_chunk {
+                BlockType::Last
+            } else if is_first_data_chunk {
+                BlockType::First""", note="same truth table (Full is decided first)")
+benign("writer_type_by_tuple_match", ["C12"], "src/logs.rs",
+    old="""            let block_type = if is_first_data_chunk && is_last_data_chunk {
+                BlockType::Full
+            } else if is_first_data_chunk {
+                BlockType::First
+            } else if is_last_data_chunk {
+                BlockType::Last
+            } else {
+                BlockType::Middle
+            };""",
+    new="""            let block_type = match (is_first_data_chunk, is_last_data_chunk) {
+                (true, true) => BlockType::Full,
+                (true, false) => BlockType::First,
+                (false, true) => BlockType::Last,
+                (false, false) => BlockType::Middle,
+            };""")
+benign("writer_chunk_by_cmp_min", ["C12"], "src/logs.rs",
+    old="""            let block_data_chunk_length = if data_to_write.len() < space_available_for_data {
+                data_to_write.len()
+            } else {
+                space_available_for_data
+            };""",
+    new="""            let block_data_chunk_length = std::cmp::min(data_to_write.len(), space_available_for_data);""")
+benign("reader_cursor_amount_in_local", ["C16", "C02", "C12"], "src/logs.rs",
+    old="""        self.current_cursor_position += header_buffer.len() + data_bytes_read;""",
+    new="""        let consumed = header_buffer.len() + data_bytes_read;
+        self.current_cursor_position += consumed;""")
+
+# ---- C14 builder / Bloom agreement / D15; C17 unlink; C11 recovery WAL number
+mut("revert_D15", ["C14"], "GRD-15", patch="revert_D15_metaindex_key_check.diff", note="filter block of another policy handed to the configured one")
+mut("filter_builder_skips_empty_key", ["C14"], "PAIR-5b", file="src/tables/filter_block_builder.rs",
+    old="""    pub(crate) fn add_key(&mut self, key: Vec<u8>) {
+        self.keys.push(key);""",
+    new="""    pub(crate) fn add_key(&mut self, key: Vec<u8>) {
+        if key.is_empty() {
+            return;
+        }
+        self.keys.push(key);""")
+mut("filter_builder_clears_keys_before_filter", ["C14"], "PAIR-5b", file="src/tables/filter_block_builder.rs",
+    old="""        let filter = self.filter_policy.create_filter(&self.keys);
+        self.filters.push(filter);
+
+        self.keys.clear();""",
+    new="""        let pending = self.keys.split_off(self.keys.len() / 2);
+        self.keys.clear();
+        let filter = self.filter_policy.create_filter(&pending);
+        self.filters.push(filter);""", note="half of the pending keys never reach a filter")
+mut("bloom_reader_probe_count_from_config", ["C14"], "AGR-1", file="src/filter_policy.rs",
+    old="""        for _ in 0..*num_hash_functions {""",
+    new="""        for _ in 0..self.num_hash_functions {""")
+mut("bloom_reader_rotation_differs", ["C14"], "AGR-1", file="src/filter_policy.rs",
+    old="""        let delta: u32 = (hash >> 17) | (hash << 15);
+        for _ in 0..*num_hash_functions {""",
+    new="""        let delta: u32 = (hash >> 15) | (hash << 17);
+        for _ in 0..*num_hash_functions {""")
+benign("bloom_reader_rotation_by_rotate_right", ["C14"], "src/filter_policy.rs",
+    old="""        let delta: u32 = (hash >> 17) | (hash << 15);
+        for _ in 0..*num_hash_functions {""",
+    new="""        let delta: u32 = hash.rotate_right(17);
+        for _ in 0..*num_hash_functions {""")
+mut("lock_file_unlinks_on_refusal", ["C17"], "GRD-9", patch="lock_file_unlinks_on_refusal.diff")
+mut("recovery_edit_keeps_old_wal_number", ["C11"], "ORD-16", file="src/db.rs",
+    old="""            version_change_manifest.prev_wal_file_number = None;
+            version_change_manifest.wal_file_number = Some(db_fields_guard.curr_wal_file_number);""",
+    new="""            version_change_manifest.prev_wal_file_number = None;""")
+mut("edit_wal_number_from_db_field", ["C11", "C02"], "ROLE-4", patch="edit_wal_number_from_db_field.diff")
